@@ -137,7 +137,8 @@ def run_case(ctx, case):
             "default_value": dv, "weights": None if w is None else core.brief(w.tolist(), 30), "reduction": red}
     ctx.cls("values:" + vk, "mode:" + mode, "weights:%s" % (w is not None), "clip:%d%d" % (cmin is not None, cmax is not None),
             "default:%s" % (dv is not None), "n:%d" % len(v))
-    if len(distinct) == 0:
+    if len(distinct) == 0 or len(vv) == 0:
+      # no sample left once the default value is removed (only zero-weight clip sentinels remain): outside the stated domain
       ctx.note("empty-after-default-removal")
       return False, None
     try:
@@ -162,6 +163,8 @@ def run_case(ctx, case):
       cmin = float(rng.choice([-1.0, 0.0])) if rng.rand() < .4 else None
       cmax = (cmin or 0.0) + 2.0 if rng.rand() < .4 else None
       dv = -1.0 if rng.rand() < .3 else None
+      if dv is not None and np.all(v == dv):
+        dv = None        # a feature whose every sample is the default value has no data: outside the stated domain
       name = "f%d" % j
       fcs.append(tfl.configs.FeatureConfig(name, pwl_calibration_num_keypoints=k, pwl_calibration_input_keypoints=mode,
                                            pwl_calibration_clip_min=cmin, pwl_calibration_clip_max=cmax, default_value=dv))
@@ -186,8 +189,8 @@ def run_case(ctx, case):
         ctx.check("feature-helpers/valid", list(fc.pwl_calibration_input_keypoints) == [0.0, 1.0, 5.0], "user keypoints overwritten")
         continue
       v, k, mode, cmin, cmax, dv = expect[fc.name]
-      distinct, _ = _distinct(v, cmin, cmax, dv)
-      if len(distinct) == 0:
+      distinct, vv_ = _distinct(v, cmin, cmax, dv)
+      if len(distinct) == 0 or len(vv_) == 0:
         continue
       judge(ctx, "feature-helpers/valid", fc.pwl_calibration_input_keypoints, distinct, k, mode,
             {"feature": fc.name, "num_keypoints": k, "mode": mode, "clip": [cmin, cmax], "default": dv})
